@@ -95,6 +95,23 @@ pub fn scripts(tier: Tier) -> Vec<Script> {
             tx((0..4).map(|i| OpSpec::put(&["t"], &format!("s{:02}*200", 2 * i), "v*10")).collect()),
         ],
     });
+    // a free list that needs more than one page (more than 124 ids at page size 1024), three-level tree
+    out.push(Script {
+        name: "large-free-list",
+        cfg: small(1024, 512),
+        actions: vec![
+            tx({
+                let mut v = vec![OpSpec::bucket("create", &[], "f")];
+                for i in 0..330 {
+                    v.push(OpSpec::put(&["f"], &format!("f{:03}", i), "w*300"));
+                }
+                v
+            }),
+            tx((0..330).filter(|i| i % 11 != 0).map(|i| OpSpec::del(&["f"], &format!("f{:03}", i))).collect()),
+            tx(vec![OpSpec::put(&["f"], "again", "x*1500"), OpSpec::del(&["f"], "f000")]),
+            tx((0..40).map(|i| OpSpec::put(&["f"], &format!("g{:03}", i), "w*300")).collect()),
+        ],
+    });
     // every single-operation transaction of the kv alphabet on the two-level base, as second commit
     // (quick) and every pair of them as second and third commit (thorough)
     {
